@@ -412,6 +412,9 @@ func (g *ngen) stmt(ind int, res []nty, d int) {
 			g.vars = save
 			g.w(ind, "default:")
 			g.w(ind+1, "_ = x")
+			if len(res) == 1 && res[0] == nAny && g.ch(60) {
+				g.w(ind+1, "return x") // the switched-over value itself
+			}
 			g.w(ind, "}")
 			return
 		}
